@@ -80,6 +80,9 @@ func genSimCloseCase(r *u.Rng) scCase {
 		c.CliIdle += time.Duration(r.Range(0, 999)) * time.Millisecond
 	}
 	c.CliIdle, c.SrvIdle = max(c.CliIdle, 12*c.RTT), max(c.SrvIdle, 12*c.RTT)
+	if r.Chance(1, 10) {
+		c.CliIdle = rlNoIdleTimeout // the client has no idle timeout of its own (repo 637b35e): the server's value alone counts
+	}
 	ka := func(idle time.Duration) time.Duration {
 		switch r.Intn(4) {
 		case 0:
@@ -257,7 +260,54 @@ func sameCause(err, cause error) bool {
 	return k1 == k2 && c1 == c2
 }
 
-func runOneSimClose(c scCase) (fails []monFail, info string) {
+// observation of one side of a closed connection, replayed through the RunLoop close model (coq/RunLoop/SimRun.v)
+type scObs struct {
+	client        bool
+	cause         error
+	immediate     bool
+	sent          bool // a CONNECTION_CLOSE datagram left at the close (closer), or anything at all after it (others)
+	parked, later [][2]int64 // (call kind, result class) of the calls that were parked at the close / issued after it
+	routing       int64      // entries left in the side's transport after the closing period
+	peer          string     // what the peer recorded if a copy of the close reached it in time: option (class, code)
+}
+
+var scCallKinds = map[string]int64{"Read": 0, "Write": 1, "AcceptStream": 2, "AcceptUniStream": 3, "OpenStreamSync": 4, "OpenUniStreamSync": 5,
+	"ReceiveDatagram": 6, "SendDatagram": 7, "OpenStream": 8, "OpenUniStream": 9}
+
+// result classes: 0 the recorded cause, 1 EOF, 2 stream error, 4 success, 5 parked, 9 anything else
+func scResClass(err, cause error) int64 {
+	var se *quic.StreamError
+	switch {
+	case err == nil:
+		return 4
+	case sameCause(err, cause):
+		return 0
+	case err == io.EOF:
+		return 1
+	case errors.As(err, &se):
+		return 2
+	}
+	return 9
+}
+
+func (o *scObs) term() string {
+	k, code := classifyErr(o.cause)
+	pl := func(l [][2]int64) string {
+		xs := make([]string, len(l))
+		for i, x := range l {
+			xs[i] = u.Pair(u.Z(x[0]), u.Z(x[1]))
+		}
+		return u.List(xs)
+	}
+	peer := o.peer
+	if peer == "" {
+		peer = "None"
+	}
+	return u.App("mkSide", u.B(o.client), errPair(k, code), u.B(o.immediate), u.B(o.sent), pl(o.parked), pl(o.later), u.Z(o.routing), peer)
+}
+
+func runOneSimClose(c scCase) (fails []monFail, info string, term string) {
+	term = "TextCase"
 	var fmu sync.Mutex
 	fail := func(key, desc string) {
 		fmu.Lock()
@@ -493,15 +543,34 @@ func runOneSimClose(c scCase) (fails []monFail, info string) {
 			e.Ln.Close()
 			time.Sleep(70 * time.Second) // longest: server-side handshake timeout of a half-open attempt + closing period
 			synctest.Wait()
-			for _, tr := range []struct {
+			var left [2]int64
+			for ti, tr := range []struct {
 				n string
 				t *quic.Transport
 			}{{"client", e.CliTr}, {"server", e.SrvTr}} {
 				counts, _, _ := quic.VerifRLRouting(tr.t, nil)
+				for _, n := range counts {
+					left[ti] += int64(n)
+				}
 				if len(counts) != 0 {
 					fail("simclose/routing/"+c.Cause+"/"+tr.n, fmt.Sprintf("routing table of the %s transport after the failed attempt: %v", tr.n, counts))
 				}
 			}
+			// replayable observation: how the attempt ended, whether the client sent anything after Dial returned, what is left
+			sentAfter := false
+			e.Router.mu.Lock()
+			for _, g := range e.Router.log {
+				if g.Dir == 0 && g.Time > d.at {
+					sentAfter = true
+				}
+			}
+			e.Router.mu.Unlock()
+			dk, dc := classifyErr(d.err)
+			if errors.Is(d.err, quic.ErrTransportClosed) {
+				dk = ekOther
+			}
+			causeCode := map[string]int64{"dial-cancel": 0, "cli-transport-close": 1, "srv-transport-close": 2, "listener-close": 3, "hs-blackhole": 4, "bad-tls": 5, "vneg": 6}[c.Cause]
+			term = u.App("HsCase", u.Z(causeCode), u.B(d.err == nil), errPair(dk, dc), u.B(sentAfter && d.err != nil), u.Z(left[0]), u.Z(left[1]))
 			return
 		}
 
@@ -520,6 +589,7 @@ func runOneSimClose(c scCase) (fails []monFail, info string) {
 		sv := a.conn
 		cs.conn, ss.conn = cl, sv
 		conns := []*quic.Conn{cl, sv}
+		obs := [2]*scObs{{client: true}, {}}
 		var doneMu sync.Mutex
 		var doneAt [2]time.Duration
 		for i, cn := range conns {
@@ -891,6 +961,7 @@ func runOneSimClose(c scCase) (fails []monFail, info string) {
 						}
 					}
 					fail("simclose/unblock/"+cl.name, fmt.Sprintf("%s: %d of %d goroutines parked in %s still parked %v after the connection closed with %v", sd.name, stuck, total, cl.name, tEnd-doneAt[i], cause))
+					obs[i].parked = append(obs[i].parked, [2]int64{scCallKinds[cl.name], 5})
 					continue
 				}
 				if (first == 0 || cl.at < first) && !((cl.name == "ReceiveDatagram" || cl.name == "SendDatagram") && cl.err == nil) {
@@ -899,6 +970,7 @@ func runOneSimClose(c scCase) (fails []monFail, info string) {
 				if (cl.name == "ReceiveDatagram" || cl.name == "SendDatagram") && cl.err == nil {
 					continue // it was handed a datagram / all its datagrams were queued before the close: its own result
 				}
+				obs[i].parked = append(obs[i].parked, [2]int64{scCallKinds[cl.name], scResClass(cl.err, cause)})
 				if !sameCause(cl.err, cause) {
 					fail("simclose/cause/"+cl.name, fmt.Sprintf("%s %s returned %q (n=%d), recorded cause %q", sd.name, cl.name, cl.err, cl.n, cause))
 				}
@@ -952,10 +1024,12 @@ func runOneSimClose(c scCase) (fails []monFail, info string) {
 				synctest.Wait()
 				select {
 				case err := <-res:
+					obs[i].later = append(obs[i].later, [2]int64{scCallKinds[lc.name], scResClass(err, cause)})
 					if !sameCause(err, cause) {
 						fail("simclose/later-call/"+lc.name, fmt.Sprintf("%s %s after the close returned %v, recorded cause %q", sd.name, lc.name, err, cause))
 					}
 				default:
+					obs[i].later = append(obs[i].later, [2]int64{scCallKinds[lc.name], 5})
 					fail("simclose/later-call-parks/"+lc.name, fmt.Sprintf("%s %s after the close parks", sd.name, lc.name))
 				}
 			}
@@ -995,6 +1069,13 @@ func runOneSimClose(c scCase) (fails []monFail, info string) {
 			}
 			if !silent && i == closer && len(atClose) > 0 {
 				after = append([]dgram{atClose[len(atClose)-1]}, after...)
+			}
+			obs[i].cause = cause
+			_, obs[i].immediate, _ = quic.VerifRecordedCloseErr(conns[i])
+			if !silent && i == closer {
+				obs[i].sent = len(after) > 0
+			} else if !(c.Cause == "stateless-reset" && i == 1) { // (the restarted transport answers from the same address)
+				obs[i].sent = len(after) > 0
 			}
 			if silent && len(after) > 0 && !(c.Cause == "stateless-reset" && i == 1) {
 				fail("simclose/silent-close-sends/"+errClassName(k, cause), fmt.Sprintf("%s closed with %q at %v but sent %d datagram(s) at/after that (first at %v, %d bytes)", sd.name, cause, closeAt[i], len(after), after[0].Time, len(after[0].Data)))
@@ -1069,7 +1150,10 @@ func runOneSimClose(c scCase) (fails []monFail, info string) {
 					}
 				}
 				pc := context.Cause(conns[1-i].Context())
-				pk, _ := classifyErr(pc)
+				pk, pcode := classifyErr(pc)
+				if delivered && (pk == ekAppRemote || pk == ekTransportRemote) {
+					obs[i].peer = u.Opt(true, errPair(pk, pcode))
+				}
 				if delivered && pk != ekAppRemote && pk != ekTransportRemote && !(pk == ekStatelessReset && c.DropClose > 0) {
 					fail("simclose/peer-close", fmt.Sprintf("a CONNECTION_CLOSE of the %s was delivered but the peer recorded %q", sd.name, pc))
 				}
@@ -1120,13 +1204,17 @@ func runOneSimClose(c scCase) (fails []monFail, info string) {
 				t *quic.Transport
 			}{"server2", srvTr2})
 		}
-		for _, tr := range trs {
+		for ti, tr := range trs {
 			counts, tokens, _ := quic.VerifRLRouting(tr.t, nil)
+			for _, n := range counts {
+				obs[min(ti, 1)].routing += int64(n)
+			}
 			if len(counts) != 0 || tokens != 0 {
 				fail("simclose/routing/"+c.Cause+"/"+tr.n, fmt.Sprintf("routing table of the %s transport after the closing period: handlers %v, reset tokens %d", tr.n, counts, tokens))
 			}
 		}
 		info = fmt.Sprintf("close at c=%v s=%v cause c=%q s=%q", closeAt[0]-tc, closeAt[1]-tc, context.Cause(cl.Context()), context.Cause(sv.Context()))
+		term = u.App("EstCase", u.List([]string{obs[0].term(), obs[1].term()}))
 	})
 	if err != nil {
 		fail("simclose/leak-or-panic", err.Error())
@@ -1134,7 +1222,7 @@ func runOneSimClose(c scCase) (fails []monFail, info string) {
 	if len(notes) > 0 {
 		info += " " + strings.Join(notes, ",")
 	}
-	return fails, info
+	return fails, info, term
 }
 
 func errClassName(k int, err error) string {
@@ -1164,7 +1252,7 @@ func runSimClose(w *bufio.Writer, seed uint64, n int, args []string) {
 			continue
 		}
 		stop := watchdog(w, "simclose/livelock", c.String)
-		fails, info := runOneSimClose(c)
+		fails, info, term := runOneSimClose(c)
 		stop()
 		dist["cause="+c.Cause+"/"+c.Timing]++
 		dist["client="+c.Client]++
@@ -1174,7 +1262,12 @@ func runSimClose(w *bufio.Writer, seed uint64, n int, args []string) {
 		if strings.Contains(info, "handshake-won") {
 			dist["handshake-won-the-race"]++
 		}
-		fmt.Fprintf(w, "CASE 1 %s\n", c.String())
+		nt := 1
+		if term == "TextCase" {
+			nt = 0
+		}
+		fmt.Fprintf(w, "CASE %d %s\n", nt, term)
+		fmt.Fprintf(w, "INFO\tcase %d: %s\n", i, c.String())
 		if i < 3 || os.Getenv("VERIF_VERBOSE") != "" {
 			fmt.Fprintf(w, "SAMPLE\ti=%d %s => %s\n", i, c.String(), info)
 		}
